@@ -26,6 +26,13 @@ C14 line-protocol driver.
       ops = rd:<key> | t+ | ch | w:<blob> | sy | cl | mv:<key> | rm
       tmp = the temp files left in the directory, each e (empty) | p (torn) | w (whole), sorted
 
+  rs <env> <files> <ev>;…   the real `caddy run [--resume] --envfile … --config …` (see harness resume.go)
+      env   = x<val>h<val>      XDG_CONFIG_HOME, HOME of the process: - unset | e empty | 0..3 a directory
+      files = . | <file>/<file>/…   file = _ | <var>=<val>,…   var = x | h | o
+      ev    = S:<r|->:<cfg> | P:<cfg> | K       cfg = <n><p|d|n>[x]
+    answer per event: S=<running config>|S=fail, P=<ok|rej>|P=norun, K, each + {a=<autosave where the
+    environment after the env files says>,b=<… where the process environment alone says>}
+
   as <ev>;<ev>;…        a history of config loads and process restarts on one autosave directory
       ev    = R | U | L<n>:<flags>:<fault>
               (U = restart with `--resume`: the new process loads, with forceReload, whatever the
@@ -40,6 +47,7 @@ C14 line-protocol driver.
 -/
 import CaddyModel.C14.Model
 import CaddyModel.C14.FileStore
+import CaddyModel.C14.Resume
 
 namespace CaddyModel.C14
 
@@ -346,9 +354,98 @@ def handleFS (hist : String) : String :=
   | some evs => render (sepBy (.s " ; ") (fsToks codeOrder evs FDisk.empty)) [] ""
   | none => "bad-op"
 
+/-! ### resume through the command line -/
+
+def parseEnvVal : String → Option EnvVal
+  | "-" => some .unset | "e" => some .empty
+  | "0" => some (.dir 0) | "1" => some (.dir 1) | "2" => some (.dir 2) | "3" => some (.dir 3)
+  | _ => none
+
+def parsePEnv (s : String) : Option PEnv :=
+  match s.toList with
+  | ['x', a, 'h', b] => do pure ⟨← parseEnvVal (String.singleton a), ← parseEnvVal (String.singleton b)⟩
+  | _ => none
+
+def parseAssign (s : String) : Option (EnvVar × EnvVal) :=
+  match s.splitOn "=" with
+  | [k, v] => do
+    let var ← (match k with | "x" => some EnvVar.xdg | "h" => some .home | "o" => some .other | _ => none)
+    let val ← parseEnvVal v
+    if val = .unset then none else pure (var, val)
+  | _ => none
+
+def distinctVars : List (EnvVar × EnvVal) → Bool
+  | [] => true
+  | a :: as => !(as.any (·.1 == a.1)) && distinctVars as
+
+def parseEnvFileSpec (s : String) : Option EnvFile :=
+  if s == "_" then some [] else do
+    let as ← (s.splitOn ",").mapM parseAssign
+    if distinctVars as then pure as else none
+
+def parseEnvFiles (s : String) : Option (List EnvFile) :=
+  if s == "." then some [] else (s.splitOn "/").mapM parseEnvFileSpec
+
+/-- cfg = <n><p|d|n>[x] -/
+def parseRSCfg (force : Bool) (s : String) : Option Load :=
+  match s.toList.span Char.isDigit with
+  | (num, p :: rest) =>
+    if num.isEmpty || !isPersistFlag p || !(rest == [] || rest == ['x']) then none else
+    some { cfg := str s, force := force, accepted := rest != ['x'], nonNil := true, persistCfg := p != 'n', allowPersist := true }
+  | _ => none
+
+inductive RSEvent
+  | start (resume : Bool) (cfg : Load)
+  | push (cfg : Load)
+  | kill
+
+def parseRSEvent (s : String) : Option RSEvent :=
+  match s.splitOn ":" with
+  | ["K"] => some .kill
+  | ["P", c] => (parseRSCfg false c).map .push
+  | ["S", r, c] =>
+    if r != "r" && r != "-" then none else
+    match parseRSCfg true c with
+    | some l => if l.accepted then some (.start (r == "r") l) else none
+    | none => none
+  | _ => none
+
+def rsState (d : CDisk) (e : PEnv) (files : List EnvFile) : String :=
+  "{a=" ++ contentName (d (writerDir e files)).path ++ ",b=" ++ contentName (d (appConfigDir e)).path ++ "}"
+
+/-- resumed bytes are loaded with forceReload; bytes that are not a config of this protocol are
+    not loadable -/
+def rsAsLoad (b : Bytes) : Load :=
+  match loadOfContent b with
+  | some l => l
+  | none => { cfg := b, force := true, accepted := false, nonNil := true, persistCfg := true, allowPersist := true }
+
+def rsOut (e : PEnv) (files : List EnvFile) : List RSEvent → Option AState → CDisk → List String
+  | [], _, _ => []
+  | .kill :: evs, _, d => ("K" ++ rsState d e files) :: rsOut e files evs none d
+  | .push l :: evs, none, d => ("P=norun" ++ rsState d e files) :: rsOut e files evs none d
+  | .push l :: evs, some a, d =>
+    (("P=" ++ (if (loadStep codeStyle l none a).res == .rejected then "rej" else "ok")
+        ++ rsState (d.set (writerDir e files) (loadStep codeStyle l none a).st.fs) e files)) ::
+      rsOut e files evs (some (loadStep codeStyle l none a).st) (d.set (writerDir e files) (loadStep codeStyle l none a).st.fs)
+  | .start r cfg :: evs, _, d =>
+    if (firstLoad codeReadAt rsAsLoad ⟨e, files, r, cfg⟩ d).accepted then
+      ("S=" ++ bytesToString (firstLoad codeReadAt rsAsLoad ⟨e, files, r, cfg⟩ d).cfg
+          ++ rsState (processRun codeReadAt rsAsLoad ⟨e, files, r, cfg⟩ [] d) e files) ::
+        rsOut e files evs
+          (some (loadStep codeStyle (firstLoad codeReadAt rsAsLoad ⟨e, files, r, cfg⟩ d) none ⟨none, d (writerDir e files)⟩).st)
+          (processRun codeReadAt rsAsLoad ⟨e, files, r, cfg⟩ [] d)
+    else ("S=fail" ++ rsState d e files) :: rsOut e files evs none d
+
+def handleRS (env files evs : String) : String :=
+  match parsePEnv env, parseEnvFiles files, (evs.splitOn ";").mapM parseRSEvent with
+  | some e, some fs, some es => " ".intercalate (rsOut e fs es none CDisk.empty)
+  | _, _, _ => "bad-op"
+
 def handle : List String → String
   | ["ca", hist] => handleCA hist
   | ["fs", hist] => handleFS hist
+  | ["rs", env, files, evs] => handleRS env files evs
   | ["as", hist] => handleAS hist
   | _ => "bad-op"
 
